@@ -346,7 +346,7 @@ class EditStream(HTMLHandlerBase):
             for period in data['periods']:
                 err: str | None = process_period(current_mps, period)
                 if err is not None:
-                    errors.push(err)
+                    errors.append(err)
             if not errors:
                 models.db.session.flush()
                 models.db.session.commit()
